@@ -8,9 +8,9 @@ import (
 	"path/filepath"
 	"strings"
 
-	"verifharness/internal/common"
 	"verifharness/internal/appstream"
 	"verifharness/internal/commitstream"
+	"verifharness/internal/common"
 	"verifharness/internal/evmsyncstream"
 	"verifharness/internal/inputstream"
 	"verifharness/internal/ledgerstream"
